@@ -464,6 +464,61 @@ def thread_run(res, n_threads, n_edits, label):
       break
 
 
+_USER_MODULE_SRC = '''
+import fiddle as fdl
+from fiddle._src import materialize
+
+def target(a=1, b=2, c=3):
+  return (a, b, c)
+
+def edit():
+  cfg = fdl.Config(target, a=10)
+  cfg.b = 20
+  del cfg.a
+  fdl.assign(cfg, c=30)
+  cfg2 = fdl.copy_with(cfg, b=21)
+  materialize.materialize_defaults(cfg)
+  return cfg, cfg2
+'''
+
+
+def user_module_attribution_case(res):
+  """Direct edits are attributed to the CALLER's source location whatever the caller's file is called - also
+  when its name merely ends like one of Fiddle's own files (experiment_config.py, run_history.py, ...)."""
+  import importlib.util, os, shutil, tempfile                 # pylint: disable=g-import-not-at-top,multiple-imports
+  d = tempfile.mkdtemp(prefix="c16mod")
+  try:
+    for base in ("pipeline.py", "experiment_config.py", "run_history.py", "my_daglish.py", "x_copying.py",
+                 "a_materialize.py", "b_mutate_buildable.py", "c_auto_config.py", "d_tagging.py"):
+      path = os.path.join(d, base)
+      with open(path, "w") as f:
+        f.write(_USER_MODULE_SRC)
+      spec = importlib.util.spec_from_file_location("c16_user_" + base[:-3], path)
+      mod = importlib.util.module_from_spec(spec)
+      res.evaluations += 1
+      res.count("user-module-attribution")
+      try:
+        spec.loader.exec_module(mod)
+        cfg, cfg2 = mod.edit()
+      except Exception as e:  # pylint: disable=broad-except
+        res.failures.append(Failure(None, f"C16 edits made from a user module named {base} raised "
+                                    f"{type(e).__name__}: {e}", {"module": base}))
+        continue
+      bad = []
+      for c, names in ((cfg, ("a", "b", "c")), (cfg2, ("b",))):
+        for nm in names:
+          for entry in c.__argument_history__[nm]:
+            loc = entry.location
+            if entry.kind is history.ChangeKind.NEW_VALUE and (
+                os.path.basename(loc.filename) != base or loc.function_name != "edit"):
+              bad.append(f"{nm}: {os.path.basename(loc.filename)}:{loc.function_name}")
+      if bad:
+        res.failures.append(Failure(None, f"C16 edits made in function edit() of a user module named {base} are "
+                                    f"attributed elsewhere: {bad[:3]}", {"module": base}))
+  finally:
+    shutil.rmtree(d, ignore_errors=True)
+
+
 def run(tier: str, seed: int) -> Result:
   rng = random.Random(seed * 122949829 + 16)
   res = Result()
@@ -487,5 +542,6 @@ def run(tier: str, seed: int) -> Result:
     thread_run(res, rng.randint(2, 4), rng.randint(20, 120), f"threads#{i}")
   for i in range(60 if tier == "quick" else 2000):
     tagged_value_assignment_case(rng, res, f"tv-assign#{i}")
+  user_module_attribution_case(res)
   construction_and_update_callable_cases(res)
   return res
